@@ -62,6 +62,20 @@ type Options struct {
 	// bus and the timer event definition builder, so that timer events in the
 	// model fire when the test advances Inst.Clock - no real time involved.
 	MockClock bool
+	// BusyBus: the instance gets its events from an event source of the
+	// caller's (bpmn.WithEventEgress) on which something happens while the
+	// instance is still being built: every consumer that registers with the
+	// source is handed an event nobody waits for straight away.
+	BusyBus bool
+}
+
+// busySource hands every new consumer a retained event at registration.
+type busySource struct{ fan *event.FanOut }
+
+func (b busySource) RegisterEventConsumer(c event.IConsumer) error {
+	err := b.fan.RegisterEventConsumer(c)
+	_, _ = c.ConsumeEvent(event.NewSignalEvent("verif-retained"))
+	return err
 }
 
 // ClockBase is the time a mock clock starts at.
@@ -102,8 +116,15 @@ func NewFromDefs(defs *schema.Definitions, tr *quiesce.Tracker, o Options) (*Ins
 		// (as package model of the repository does: timer builder first, the
 		// plain wrapping builder for every other kind of definition)
 		builder := event.DefinitionInstanceBuildingChain(timer.EventDefinitionInstanceBuilder(ctx, fan, tracer), event.WrappingDefinitionInstanceBuilder)
+		var src event.ISource = fan
+		if o.BusyBus {
+			src = busySource{fan}
+		}
 		opts = append(opts, bpmn.WithTracer(tracer), bpmn.WithProcessEventDefinitionInstanceBuilder(builder),
-			bpmn.WithEventEgress(fan), bpmn.WithEventIngress(fan))
+			bpmn.WithEventEgress(src), bpmn.WithEventIngress(fan))
+	} else if o.BusyBus {
+		fan := event.NewFanOut()
+		opts = append(opts, bpmn.WithEventEgress(busySource{fan}), bpmn.WithEventIngress(fan))
 	}
 	opts = append(opts, o.Extra...)
 	p, err := bpmn.NewEngine().NewProcess(defs, opts...)
